@@ -23,6 +23,7 @@ class Program:
         self.tag = tag              # generator family (for evidence)
         self.idx = None
         self.func_style = 'function'    # callbacks: 'function' | 'expr' | 'block'
+        self.group = None               # grouped (gadget) binding: ('font', 'pointSize', [(sibling member, constant expr)...])
 
     def target(self):
         return f't{self.idx}'
@@ -30,7 +31,12 @@ class Program:
     def source(self, ind='      '):
         if self.kind == 'binding':
             from .gen import TARGET
-            prop = TARGET[self.ty]
+            prop = TARGET[self.ty] if self.group is None else f'{self.group[0]}.{self.group[1]}'
+            if self.group is not None:
+                sib = ''.join(f'; {self.group[0]}.{m}: {L.pp(e)}' for m, e in self.group[2])
+                if self.form == 'expr':
+                    return f'{prop}: {L.pp(self.body)}{sib}'
+                return f'{prop}: {{\n' + '\n'.join(L.pps(self.body, ind)) + f'\n{ind[:-2]}}}{sib}'
             if self.form == 'expr':
                 return f'{prop}: {L.pp(self.body)}'
             return f'{prop}: {{\n' + '\n'.join(L.pps(self.body, ind)) + f'\n{ind[:-2]}}}'
@@ -42,8 +48,16 @@ class Program:
         ps = ', '.join(f'{n}: {qml_type(t)}' for n, t in self.params)
         return f'{name}: function({ps}) {{\n' + '\n'.join(L.pps(self.body, ind)) + f'\n{ind[:-2]}}}'
 
+    def group_suffix(self):
+        t = self.target()
+        g = self.group[0]
+        return t[0].upper() + t[1:] + g[0].upper() + g[1:]
+
     def suffix(self):
         t = self.target()
+        if self.group is not None:
+            m = self.group[1]
+            return self.group_suffix() + m[0].upper() + m[1:]
         if self.kind == 'binding':
             from .gen import TARGET
             p = TARGET[self.ty]
@@ -186,11 +200,30 @@ class Analysis:
             r.declare(p0, sc, n, t, 'let', v)
         if prog.form == 'expr' and prog.kind == 'binding':
             v, ty = r.ev(prog.body, p0, sc, prog.ty)
-            outs = [(p0, 'return', (v, L.conc(ty), prog.body))]
+            outs = [(p0, 'return', (v, L.conc(ty), prog.body, L.typeof(prog.body, self.env, sc)))]
         else:
             outs = r.run(prog.body, [(p0, 'normal', None)], sc)
         self.ref_outs = outs
+        if prog.kind == 'binding':
+            self.check_result_type(outs)
         return outs
+
+    def check_result_type(self, outs):
+        """documented rule: all results of a binding have one common type, assignable to the bound property
+        (no implicit conversion other than object upcast)"""
+        raw = []
+        for (p, kind, rv) in outs:
+            x = rv if kind == 'return' else (p.cv if kind == 'normal' else None)
+            if kind == 'break':
+                raise L.IllTyped('break outside switch')
+            if x is None or x[0] is None:
+                raise L.IllTyped('a path of a value binding yields no value')
+            raw.append(x[3] if len(x) > 3 else x[1])
+        t = raw[0]
+        for u in raw[1:]:
+            t = L.unify(t, u)
+        if not L.assignable(self.env, self.prog.ty, t):
+            raise L.IllTyped(f'result type {t} is not assignable to {self.prog.ty}')
 
     def impl_side(self):
         prog = self.prog
@@ -230,7 +263,7 @@ def value_query(an):
         val = rv if kind == 'return' else (p.cv if kind == 'normal' else None)
         if val is None or val[0] is None:
             continue       # no value on this path: the reference says nothing
-        v, ty, _ = val
+        v, ty = val[0], val[1]
         dfn = z3.And(p.pc, p.d, p.vok)
         for r in an.impl_results:
             if r['value'] is None or r['value'].t is None:
